@@ -858,6 +858,22 @@ def _iter_adapt(name):
         if name == "take":
             return PyIter(xs[:a[1]])
         if name == "collect":
+            target = m.facts.ty(m.cur_call_ty) if m.cur_call_ty is not None else ""
+            if target.startswith("std::result::Result<") or target.startswith("std::option::Option<"):
+                isres = target.startswith("std::result::Result<")
+                out = []
+                for x in xs:
+                    x = deref(x)
+                    if isinstance(x, Term):
+                        if m.decide(Term("is_ok" if isres else "is_some", x)):
+                            out.append(Term("unwrap", x))
+                        else:
+                            return err(Term("err_of", x)) if isres else NONE
+                    elif x.variant in ("Ok", "Some"):
+                        out.append(x.fields["0"])
+                    else:
+                        return x
+                return ok(PyVec(out)) if isres else some(PyVec(out))
             return PyVec(xs)
         if name == "count":
             return len(xs)
@@ -887,6 +903,19 @@ def _iter_adapt(name):
             for x in xs:
                 acc = m.call_value(a[2], [acc, x])
             return acc
+        if name == "try_fold":
+            acc = a[1]
+            target = m.facts.ty(m.cur_call_ty) if m.cur_call_ty is not None else ""
+            isopt = target.startswith("std::option::Option")
+            for x in xs:
+                r = deref(m.call_value(a[2], [acc, x]))
+                if is_sym(r):
+                    raise Unsupported("try_fold with symbolic step result")
+                if r.variant in ("None", "Err"):
+                    return r
+                acc = r.fields["0"]
+                isopt = r.path == OPTION
+            return some(acc) if isopt else ok(acc)
         if name == "for_each":
             for x in xs:
                 m.call_value(a[1], [x])
@@ -943,7 +972,7 @@ def _iter_adapt(name):
 
 for _nm in ["enumerate", "rev", "map", "filter", "filter_map", "cloned", "copied", "chain", "zip",
             "skip", "take", "collect", "count", "sum", "all", "any", "fold", "for_each", "max", "min",
-            "last", "unzip", "position", "find", "by_ref", "peekable", "fuse", "max_by_key", "min_by_key"]:
+            "last", "unzip", "position", "find", "by_ref", "peekable", "fuse", "max_by_key", "min_by_key", "try_fold"]:
     TRAIT_TABLE[("std::iter::Iterator", _nm)] = _iter_adapt(_nm)
     SEMANTIC_FIRST.add(("std::iter::Iterator", _nm))
 TRAIT_TABLE[("std::iter::DoubleEndedIterator", "rev")] = _iter_adapt("rev")
@@ -1234,3 +1263,32 @@ def _nth_child(m, a, c):
         return Term("nth_child", node, a[1])
     ch = tree_children(m, node)
     return some(ch[a[1]]) if 0 <= a[1] < len(ch) else NONE
+
+
+@treg("std::default::Default", "default")
+def _default(m, a, c):
+    st = c.get("self_ty") or ""
+    if c.get("resolved") in m.facts.bodies:
+        return NOT_HANDLED
+    if st == "bool":
+        return False
+    if st in INT_RANGES:
+        return 0
+    if st.startswith("std::option::Option"):
+        return NONE
+    if st.startswith("std::vec::Vec"):
+        return PyVec()
+    for imp in m.facts.impls:
+        if imp["trait"] == "std::default::Default" and imp["self_ty"].split("<")[0] == st.split("<")[0]:
+            for it in imp["items"]:
+                if it["name"] == "default" and it["path"] in m.facts.bodies:
+                    return m.call_path(it["path"], [])
+    return NOT_HANDLED
+
+
+@reg("std::option::Option::<T>::then_some", "core::bool::<impl bool>::then_some")
+def _then_some(m, a, c):
+    b = deref(a[0])
+    if is_sym(b):
+        return Term("then_some", b, a[1])
+    return some(a[1]) if b else NONE
